@@ -1090,7 +1090,9 @@ impl ObjFiber {
             self.open_upvalues = {
                 let mut borrowed_upvalue = upvalue.borrow_mut();
                 borrowed_upvalue.close();
-                borrowed_upvalue.next
+                // A closed variable has left the list; keeping the link would keep the variables
+                // that were open below it (and later their values) alive for as long as it lives.
+                borrowed_upvalue.next.take()
             };
         }
     }
